@@ -38,6 +38,33 @@ CHECKS.update({
    "property-based testing (Hypothesis program generation): differential against the reference channel"),
 })
 
+CHECKS.update({
+ "C07": machine("DESIGN.md 3/C07", "Histories of 3-8 (thorough 3-14) generated public calls of every kind; after every successful call every block reachable from the user's handles must be a well-formed normalised state of its claimed form (validity predicate).",
+   "property-based testing (Hypothesis program generation, history-based): validity invariant over the object graph after every step"),
+ "C08": machine("DESIGN.md 3/C08", "Direct expand/contract calls on complex/mixed states in every container (state-invariance + level rules) and metamorphic twin programs executed with automatic contraction on / off / toggled: joint state and every sampler probability vector must agree step by step.",
+   "property-based testing (Hypothesis): state-invariance oracle + metamorphic twin programs under both contraction settings"),
+ "C09": machine("DESIGN.md 3/C09", "Dilation-generated complete operator sets (projective and not) at all entry points/layouts with the sampler intercepted: full probability vector vs Tr(M rho M^+), returned index, fate of subsystems, post-measurement state (any unravelling of the instrument accepted for destroyed subsystems).",
+   "property-based testing (Hypothesis program generation) with intercepted sampler: differential against the reference instrument"),
+ "C10": machine("DESIGN.md 3/C10", "Resize requests 0..7 at all entry points/layouts with support at the edge (validity predicate over return value, dimension, state) and displacement/squeezing/ladder/phase operations with complex parameters compared with the ideal action at a large cut-off.",
+   "property-based testing (Hypothesis program generation): validity predicate for resize + differential against a large-cut-off reference"),
+ "C11": machine("DESIGN.md 3/C11", "Generated interferometer meshes of beam splitters and phase shifters over 2-3 modes in every layout: total-photon-number distribution invariant and SU(2) reference per step; Mach-Zehnder example program with generated phase against the cos^2/sin^2 closed form (state and intercepted detection probabilities).",
+   "property-based testing (Hypothesis program generation): conservation invariant + differential SU(2) reference + closed-form Mach-Zehnder oracle"),
+ "C13": machine("DESIGN.md 3/C13", "Histories with merges of composite envelopes, combines, reorders, operations, channels and measurements; bookkeeping predicate (index names the place, back pointers resolve, no duplicate/empty product space) after every successful call.",
+   "property-based testing (Hypothesis program generation, history-based): bookkeeping invariant over registries, containers and indices"),
+ "C14": machine("DESIGN.md 3/C14", "Metamorphic twins of programs with unforced measurements: re-seed and re-run, run after unrelated activity, run in a fresh interpreter; outcomes, sampler keys and final states must coincide; keys pairwise distinct; coarse frequency bound on two successive draws over 256 seeds.",
+   "property-based testing (Hypothesis): metamorphic twin runs + key-distinctness invariant via sampler interception"),
+ "C15": machine("DESIGN.md 3/C15", "Generated schedules of construct/apply events over 2-3 operation slots; twin with long-lived Operation objects vs twin with freshly constructed equal operations must agree on accept/reject and joint state after every apply.",
+   "property-based testing (Hypothesis): metamorphic twin schedules (re-used vs fresh Operation objects)"),
+ "C18": machine("DESIGN.md 3/C18", "Metamorphic twins: the same program on a world whose subsystems hold equal values and on one where they are distinct; a step oracle failing only in the equal-valued world, or differing addressing signatures, is a confusion of subsystems.",
+   "property-based testing (Hypothesis): metamorphic twin worlds (equal-valued vs distinct-valued subsystems) under identity-based step oracles"),
+ "C20": machine("DESIGN.md 3/C20", "Histories on multi-block worlds; before/after comparison of the block partition: blocks without addressed members must be bit-identical, no over-merge, single-subsystem actions never enlarge a product space.",
+   "property-based testing (Hypothesis program generation, history-based): partition / bystander-bit-identity invariant"),
+})
+CHECKS["C17"] = dict(category="fault_enumeration", design_ref="DESIGN.md 3/C17",
+   technique="property-based fault injection (Hypothesis): generated invalid requests inside generated programs, rejection + before/after snapshot equality",
+   text="Twelve kinds of invalid request injected at generated points of generated programs through every entry point and layout; the call must raise (or return False) and the joint state, validity and bookkeeping predicates must be unchanged; valid continuation follows under its own oracles.",
+   note=MACHINE_NOTE)
+
 NOT_YET = {}
 
 def main():
